@@ -31,6 +31,10 @@ func genPlainData(t *rapid.T) PlainDataCase {
 	o := sm.SpecOpts{Deterministic: true, NativeToo: rapid.IntRange(0, 3).Draw(t, "nat") == 0, Fail: 2, GuardFail: 1, Emit: true, UserErrorNode: true, Derive: true, ArrayVar: true, IneqBound: true}
 	a := sm.GenLivelySpec(t, o)
 	c := PlainDataCase{Spec: a, Node: rapid.SampledFrom(a.NodeNames()).Draw(t, "at"), Bs: sm.GenBindings(t, "bs")}
+	if rapid.IntRange(0, 2).Draw(t, "arrobj") == 0 {
+		// an array of objects: scripts may write into its elements
+		c.Bs[rapid.SampledFrom([]string{"x", "y", "l"}).Draw(t, "arrobjk")] = []interface{}{map[string]interface{}{"a": 1.0}, map[string]interface{}{"b": []interface{}{2.0}}}
+	}
 	n := rapid.IntRange(1, 8).Draw(t, "nm")
 	for i := 0; i < n; i++ {
 		c.Messages = append(c.Messages, sm.GenMessageFor(t, a, fmt.Sprintf("m%d", i)))
